@@ -313,9 +313,164 @@ func e9Case(variant string, depth int, stepped bool, palette int, seqs []string,
 		}}
 }
 
+// e9CtlCase: Ready() of a controller closes only after the first list has been
+// fully applied; a failed first list never makes anything ready (that half is
+// E15's, reported under C08 as well).
+func e9CtlCase(seed uint64, n int) Case {
+	id := fmt.Sprintf("E9/controller/%d/%d", seed, n)
+	return Case{ID: id, Desc: map[string]interface{}{"seed": seed, "n": n, "what": "controller readiness vs first list"}, Bubble: true, Run: func(r *Res) {
+		rng := kit.NewRng(kit.Mix(seed, uint64(n)+909))
+		core := kit.NewCore(&kit.Plan{Seed: rng.U64(), PYield: 150, PSleep: 60, MaxSleep: 80 * time.Microsecond,
+			Targets: map[string]time.Duration{[]string{"controller|list version", "controller|list complete", "controller|ready", "cache|"}[rng.Intn(4)]: 100 * time.Microsecond}})
+		srv := kit.NewPodServer(core)
+		u := smallUniverse()
+		for i := 0; i < 4; i++ {
+			u.mutate(rng, srv)
+		}
+		lat := []time.Duration{0, time.Millisecond, 300 * time.Millisecond, 5 * time.Second}[rng.Intn(4)]
+		late := rng.Bool()
+		srv.ListPlan = func(i int) kit.ListFault { return kit.ListFault{Latency: lat, SnapshotLate: late} }
+		fam := filterFamily()
+		F := fam[[]int{0, 2, 3, 5, 7}[rng.Intn(5)]]
+		g, err := newCtlRig(core, srv, time.Minute, F)
+		if err != nil {
+			r.Inc(err.Error())
+			return
+		}
+		sub, _ := g.ctl.Subscribe()
+		fsub, _ := g.ctl.SubscribeWithFilter(fam[2].Build())
+		mir := startMirror("sub", sub.Events(), sub.Ready(), nil)
+		fmir := startMirror("subwf", fsub.Events(), fsub.Ready(), nil)
+		w := watchReady(g.ctl)
+		fw := watchReady(fsub)
+		defer func() {
+			close(w.stop)
+			<-w.done
+			close(fw.stop)
+			<-fw.done
+		}()
+		// the server keeps changing while the first list is in flight
+		stop := make(chan struct{})
+		mdone := make(chan struct{})
+		go func() {
+			defer close(mdone)
+			for i := 0; i < 8; i++ {
+				select {
+				case <-stop:
+					return
+				case <-time.After(lat/6 + 50*time.Microsecond):
+					u.mutate(rng, srv)
+				}
+			}
+		}()
+		if lat > 0 {
+			time.Sleep(lat / 2)
+			core.Barrier()
+			if isClosed(g.ctl.Ready()) {
+				r.V("C08", "ready-before-first-list", "controller Ready() closed while the first list (latency %v) was still in flight", lat)
+			}
+			if isClosed(fsub.Ready()) || isClosed(sub.Ready()) {
+				r.V("C08", "ready-before-first-list", "a subscription is ready while the controller's first list is in flight")
+			}
+			r.Add("not-ready-while-listing-checks", 1)
+		}
+		if !waitCh(g.ctl.Ready(), virtBound) {
+			r.V("C08", "never-ready", "controller not ready although the first list succeeds")
+			g.shutdown(r, "C12")
+			return
+		}
+		<-mdone
+		close(stop)
+		core.Barrier()
+		lists := srv.Lists()
+		fired, snap, rerr := w.get()
+		if !fired {
+			r.V("C08", "ready-watcher-missed", "Ready() closed but the waiting goroutine did not wake")
+		} else if rerr == nil && len(lists) > 0 && lists[0].Returned {
+			want := kit.Snap{}
+			for _, o := range srv.LogObjectsAt(lists[0].Snap) {
+				if F.Eval(o) {
+					want[kit.Key(o)] = o.GetResourceVersion()
+				}
+			}
+			// the read made when Ready() fired holds the list's accepted objects,
+			// possibly already advanced by watch events delivered after it (never less)
+			ok := true
+			for k, v := range want {
+				gv, has := snap[k]
+				if has && kit.Atoi(gv) < kit.Atoi(v) {
+					ok = false
+				}
+				if !has {
+					// may only be missing if the server deleted it or relabelled it later
+					ok = ok && (!srv.Has(splitKey(k)) || !F.Eval(currentObj(srv, k)))
+				}
+			}
+			if len(snap) == 0 && len(want) > 0 && F.Accepted(srv.Objects()).Equal(kit.Snap{}) == false {
+				ok = false
+			}
+			r.Add("content-at-readiness-checks", 1)
+			if !ok {
+				r.V("C08", "read-at-readiness-not-synced", "the cache read made when the controller's Ready() fired returned %v; the first list's accepted objects were %v (filter %s)", snap, want, F)
+			}
+		}
+		if f2, fsnap, _ := fw.get(); f2 && fsnap != nil {
+			for k := range fsnap {
+				o := currentOrLogged(srv, k, fsnap[k])
+				if o != nil && (!F.Eval(o) || !fam[2].Eval(o)) {
+					r.V("C08", "read-at-readiness-not-synced", "filtered subscription read %s@%s at readiness although its filters reject it", k, fsnap[k])
+				}
+			}
+		}
+		for _, m := range []*mirror{mir, fmir} {
+			if m.preReady() > 0 {
+				r.V("C08", "event-before-ready", "%s received %d event(s) before its Ready() closed", m.name, m.preReady())
+			}
+		}
+		// at quiescence everything is synced
+		got, _ := cacheSnap(g.ctl.Cache())
+		if want := F.Accepted(srv.Objects()); !got.Equal(want) {
+			r.V("C08", "content-after-ready-wrong", "controller is ready and quiescent but holds %v, accepted server content is %v", got, want)
+		}
+		r.Add("controller-readiness-cases", 1)
+		g.shutdown(r, "C12")
+		r.Key(id)
+		r.Sample = map[string]interface{}{"first_list_latency": lat.String(), "filter": F.String(), "read_at_readiness": fmt.Sprint(snap)}
+	}}
+}
+
+func splitKey(k string) (string, string) {
+	for i := 0; i < len(k); i++ {
+		if k[i] == '/' {
+			return k[:i], k[i+1:]
+		}
+	}
+	return "", k
+}
+
+func currentObj(srv *kit.Server, key string) metav1Object {
+	for _, o := range srv.Objects() {
+		if kit.Key(o) == key {
+			return o
+		}
+	}
+	return nil
+}
+
+func currentOrLogged(srv *kit.Server, key, rv string) metav1Object {
+	l := srv.LogObjectsAt(kit.Snap{key: rv})
+	if len(l) == 1 && kit.Key(l[0]) == key {
+		return l[0]
+	}
+	return nil
+}
+
 func init() {
 	register("E9", func(tier string, seed uint64) []Case {
 		var cases []Case
+		for i := 0; i < tierPick(tier, 120, 3000); i++ {
+			cases = append(cases, e9CtlCase(seed, i))
+		}
 		maxLen := tierPick(tier, 5, 6)
 		seqs := e9Sequences(maxLen)
 		const chunk = 150
